@@ -11,7 +11,7 @@ from vlib.ref import ref_units as RU
 PROPERTY = "C10"
 RULE = ("all (form in total / per month / each month) x (5 energy x 6 fat x 6 protein unit names) source and target combinations are "
         "enumerated per drawn settings (population 1e3..1e10, daily needs 500..5000 kcal, 10..200 g fat, 10..200 g protein; scalar and "
-        "series shapes, drawn values): Food.in_units is compared with a dimensional reference, the round trip A->B->A and the triangle "
+        "series shapes, drawn values written as float arrays, Python lists or whole numbers of integer type): Food.in_units is compared with a dimensional reference, the round trip A->B->A and the triangle "
         "A->C->B are checked, form and shape must be preserved, the five in_units_* helpers are compared with in_units, the three anchor "
         "identities are asserted, unknown names must be rejected.  Non-trivial = conversion between two different base names under "
         "non-default settings; distinct by (settings, names, form).")
@@ -31,7 +31,10 @@ def settings_case(draw):
                 fat=draw(st.sampled_from([47.0, 61.7]) | st.floats(10, 200)),
                 protein=draw(st.sampled_from([51.0, 59.5]) | st.floats(10, 200)),
                 vals=draw(st.lists(st.floats(1e-3, 1e6) | st.floats(-1e6, -1e-3) | st.sampled_from([0.0, 1.0, -1.0]), min_size=9, max_size=9)),
-                n=draw(st.sampled_from([1, 2, 3])))
+                n=draw(st.sampled_from([1, 2, 3])),
+                # how the caller wrote the numbers down: float arrays, Python lists, and whole numbers given as ints (int64 arrays,
+                # lists of ints, int scalars) - the constructor accepts all of them and the tests of the repository use them
+                container=draw(st.sampled_from(["ndarray_float", "ndarray_float", "list_float", "ndarray_int", "list_int"])))
 
 
 def apply_settings(c):
@@ -51,9 +54,15 @@ def mk(units, form, c):
             return {"get_month": lambda: series.get_month(i), "index": lambda: series[i], "get_first_month": series.get_first_month,
                     "sum": series.get_nutrients_sum, "min": series.get_min_all_months}[how]()
     lab = [u + SUFFIX[form] for u in units]
+    cont = c.get("container", "ndarray_float")
+    if cont.endswith("_int"):
+        v = [int(round(x)) if abs(x) >= 0.5 else (1 if x > 0 else -1 if x < 0 else 0) for x in v]
     if form == "each":
         n = c["n"]
-        return Food(np.array(v[0:n]), np.array(v[3:3 + n]), np.array(v[6:6 + n]), *lab)
+        wrap = (lambda x: list(x)) if cont.startswith("list") else (lambda x: np.array(x))
+        return Food(wrap(v[0:n]), wrap(v[3:3 + n]), wrap(v[6:6 + n]), *lab)
+    if cont.endswith("_int"):
+        return Food(v[0], v[3], v[6], *lab)
     return Food(float(v[0]), float(v[3]), float(v[6]), *lab)
 
 
@@ -85,7 +94,7 @@ def one_settings(ctx, c, pairs_stride=1, offset=0, history=()):
                 if (k + offset) % (pairs_stride * (6 if derived else 1)):
                     continue
                 ctx.count()
-                case = dict(kind="conv", settings=s, vals=c["vals"], n=c["n"], form=form, src=list(src), dst=list(dst), history=hist)
+                case = dict(kind="conv", settings=s, vals=c["vals"], n=c["n"], container=c.get("container", "ndarray_float"), form=form, src=list(src), dst=list(dst), history=hist)
                 with quiet():
                     b = a.in_units(*dst)
                 exp_lab = [u + SUFFIX[form.split("<-")[0]] for u in dst]
@@ -125,7 +134,7 @@ def one_settings(ctx, c, pairs_stride=1, offset=0, history=()):
 def anchors_and_helpers(ctx, c, s, hist=()):
     from src.food_system.food import Food
     P, K, F, Pr = s["pop"], s["kcals"], s["fat"], s["protein"]
-    case = dict(kind="anchor", settings=s, vals=c["vals"], n=c["n"], history=list(hist))
+    case = dict(kind="anchor", settings=s, vals=c["vals"], n=c["n"], container=c.get("container", "ndarray_float"), history=list(hist))
     need = Food(P * K * 30 / 1e9, P * F * 30 / 1e9, P * Pr * 30 / 1e9, "billion kcals per month", "thousand tons per month", "thousand tons per month")
     with quiet():
         pf = need.in_units_percent_fed()
@@ -171,6 +180,12 @@ def shard(ctx):
 
     def body(c):
         one_settings(ctx, c, pairs_stride=stride, offset=ctx.shard)
+        ctx.event("container_" + c["container"])
+        # every way of writing the numbers down, not only the drawn one (a sparser slice of the name pairs)
+        for cont in ("ndarray_float", "list_float", "ndarray_int", "list_int"):
+            if cont != c["container"]:
+                one_settings(ctx, dict(c, container=cont), pairs_stride=stride * 12, offset=ctx.shard)
+                ctx.event("container_" + cont)
         ctx.sample(dict(settings={k: c[k] for k in ("pop", "kcals", "fat", "protein")}, n=c["n"], values=c["vals"][:3]), limit=2)
     import hypothesis
     # all shards must draw the same settings so that together they cover every name pair: seed by ctx.seed only
@@ -178,7 +193,7 @@ def shard(ctx):
     from vlib.harness import hyp_settings
 
     @hypothesis.seed(ctx.seed * 7919 + 13)
-    @hyp_settings(40 if thorough else 3, shrink=False)
+    @hyp_settings(40 if thorough else 8, shrink=False)
     @given(settings_case(), st.lists(st.tuples(st.floats(10, 200), st.floats(10, 200), st.booleans()), min_size=2, max_size=2))
     def run(c, followups):
         body(c)
@@ -197,7 +212,7 @@ def shard(ctx):
 
 
 def replay(case, ctx):
-    c = dict(case["settings"], vals=case["vals"], n=case["n"])
+    c = dict(case["settings"], vals=case["vals"], n=case["n"], container=case.get("container", "ndarray_float"))
     for h in case.get("history", []):
         # re-create the history of process-wide settings, converting once under each so that anything cached is cached
         hc = dict(h, vals=case["vals"], n=case["n"])
